@@ -53,6 +53,8 @@ theorem gen_retry (xo h : Nat) :
 theorem gen_header_tables :
     Gen.Cphd.hdr_fields = fieldNames ∧ Gen.Cphd.hdr_int_fields = fieldNames.take 8 ∧
     Gen.Cphd.first_fmt = firstFmtCphd ∧ Gen.Cphd.line_fmt = lineFmt ∧ Gen.Cphd.join_sep = "" ∧
-    Gen.Cphd.terminator = [12, 10] := by decide
+    Gen.Cphd.terminator = [12, 10] ∧
+    -- every header attribute is populated when the fit test measures the text, none is filled in afterwards
+    fieldNames.all (fun f => Gen.Cphd.hdr_measured.contains f) = true ∧ Gen.Cphd.hdr_late = [] := by decide
 
 end Sarpy.Props.C09
